@@ -82,3 +82,22 @@ elif cmd == 'call':
     tab.append({'caller': caller, 'callee': callee, 'ga': ga, 'mode': mode, 'props': props.split(','), 'why': why})
     json.dump(tab, open(p, 'w'), indent=1)
     print('added call', caller, callee)
+if cmd == 'amount':
+    # census_add.py amount <caller> <callee full path> <props> <why> [--arg N]
+    caller, callee, props, why = args[:4]
+    idx = int(flags[flags.index('--arg') + 1]) if '--arg' in flags else 1
+    F = facts('su-dbg')
+    f = F.fn(caller)
+    got = sorted(a for a, ln in boundaries.amount_sites(F, f, callee, idx))
+    if not got:
+        raise SystemExit('no such call')
+    p = os.path.join(VERIF, 'h2lint', 'rules', 'amounts.json')
+    tab = json.load(open(p))
+    if any(e['caller'] == caller and e['callee'] == callee and e.get('arg', 1) == idx for e in tab):
+        raise SystemExit('entry exists')
+    e = {'caller': caller, 'callee': callee, 'atoms': got, 'props': props.split(','), 'why': why}
+    if idx != 1:
+        e['arg'] = idx
+    tab.append(e)
+    json.dump(tab, open(p, 'w'), indent=1)
+    print('added amount', caller, callee, got)
